@@ -1000,6 +1000,7 @@ func sharedServer(R *mon.Run) {
 		mu.Unlock()
 	}
 	var wg sync.WaitGroup
+	var progress atomic.Int64
 	for g := 0; g < workers; g++ {
 		wg.Add(1)
 		go func(g int) {
@@ -1062,6 +1063,7 @@ func sharedServer(R *mon.Run) {
 					report("accepted-foreign-payload@shared-server", map[string]any{"payload": foreign, "iteration": it, "goroutine": g})
 				}
 				R.Eval(fmt.Sprintf("shared/payload/%d/%d", g, it))
+				progress.Add(1)
 				if it%4 != 0 {
 					continue
 				}
@@ -1086,8 +1088,52 @@ func sharedServer(R *mon.Run) {
 			}
 		}(g)
 	}
-	wg.Wait()
-	R.Count("shared_server_payloads", int64(workers*iters))
+	// wait for the workers, watching progress: a server whose calls never return (a lock left behind by a
+	// crashed call, say) must end as a verdict, not as a check that hangs. No iteration of any worker for
+	// 30 s while a 10 ms sleeper shows that the machine itself is responsive = blocked.
+	done := make(chan struct{})
+	go func() { wg.Wait(); close(done) }()
+	var worstLate atomic.Int64
+	stopProbe := make(chan struct{})
+	go func() {
+		for {
+			t0 := time.Now()
+			select {
+			case <-stopProbe:
+				return
+			case <-time.After(10 * time.Millisecond):
+			}
+			if late := int64(time.Since(t0) - 10*time.Millisecond); late > worstLate.Load() {
+				worstLate.Store(late)
+			}
+		}
+	}()
+	last, lastChange := progress.Load(), time.Now()
+wait:
+	for {
+		select {
+		case <-done:
+			break wait
+		case <-time.After(time.Second):
+		}
+		if now := progress.Load(); now != last {
+			last, lastChange = now, time.Now()
+			worstLate.Store(0)
+			continue
+		}
+		if time.Since(lastChange) > 30*time.Second {
+			if time.Duration(worstLate.Load()) > time.Second {
+				R.Inconclusive("shared-server workers made no progress for 30 s while the machine was stalling")
+			} else {
+				buf := make([]byte, 1<<20)
+				buf = buf[:runtime.Stack(buf, true)]
+				report("blocked@shared-server/calls-do-not-return", map[string]any{"iterations_done": last, "of": workers * iters, "goroutines": mon.Trunc(onlyTongoStacks(string(buf)), 3000)})
+			}
+			break wait
+		}
+	}
+	close(stopProbe)
+	R.Count("shared_server_payloads", progress.Load())
 	sigs := make([]string, 0, len(first))
 	for sg := range first {
 		sigs = append(sigs, sg)
@@ -1096,6 +1142,17 @@ func sharedServer(R *mon.Run) {
 	for _, sg := range sigs {
 		R.Violation(sg, first[sg])
 	}
+}
+
+// onlyTongoStacks keeps the goroutines of a dump that have a tonconnect frame.
+func onlyTongoStacks(dump string) string {
+	var out []string
+	for _, g := range strings.Split(dump, "\n\n") {
+		if strings.Contains(g, "tongo/tonconnect.") {
+			out = append(out, g)
+		}
+	}
+	return strings.Join(out, "\n\n")
 }
 
 // keyless: see the call site.
